@@ -228,6 +228,42 @@ def check_spec(spec, ctx):
                       f"a convention class differing only in its {how} did not change the key "
                       f"({spec['conv']})")
         kinds.add("convention")
+
+        # ---- history on ONE dataset object: key, edit a geometry variable in place, key again.
+        # The key is a function of what the dataset holds now, not of what it held when it was
+        # first asked.
+        from emsarray.operations.cache import make_cache_key
+        work = ds.copy(deep=True)
+        bind(spec, work)
+        ctx.at("C16.in_place_history")
+        previous = make_cache_key(work)
+        names = [n for n in c05.geometry_names(spec) if n in work.variables and work[n].ndim >= 1]
+        for name in names[:3]:
+            values = work.variables[name].values
+            flat = values.reshape(-1)
+            k = next((q for q in range(flat.size) if not (flat[q] != flat[q])), None)
+            if k is None or not values.flags.writeable or not numpy.shares_memory(flat, values):
+                continue
+            flat[k] = flat[k] + (1 if values.dtype.kind in "iu" else 0.5)
+            # (both keys are made while both dataset objects exist, so that the attribute
+            # objects are shared to the same degree - see the attribute-identity finding)
+            twin = work.copy(deep=False)
+            bind(spec, twin)
+            now = make_cache_key(work)
+            ctx.check(now != previous, "C16.in_place_history",
+                      lambda: f"a value of geometry variable {name} was changed in place after a key "
+                      f"had been made: the same dataset object still reports the old key ({spec['conv']})")
+            ctx.check(make_cache_key(twin) == now, "C16.in_place_history",
+                      lambda: f"after an in-place edit of {name} the dataset's key differs from the key "
+                      f"of a new dataset object holding the very same variables ({spec['conv']})")
+            previous = now
+            work.variables[name].attrs["edited_in_place"] = "yes"
+            now = make_cache_key(work)
+            ctx.check(now != previous, "C16.in_place_history",
+                      lambda: f"an attribute was added in place to geometry variable {name} after a "
+                      f"key had been made: the old key is still reported ({spec['conv']})")
+            previous = now
+            ctx.label("in_place_history")
     ctx.label("conv:" + spec["conv"])
     ctx.nontrivial(len(kinds) >= 3 and n_non >= 2)
 
